@@ -8,11 +8,12 @@ CACHE = os.path.join(common.WORK, "obcache.json")
 
 
 def _deps_stamp():
+    """everything a generated obligation may depend on: all hand-written theories and the regenerated tables"""
     h = hashlib.sha1()
-    for f in ("Expr.v", "KTactics.v", "Distr.v", "SpecialR.v"):
-        p = os.path.join(common.COQ, "theories", f)
-        if os.path.exists(p):
-            h.update(open(p, "rb").read())
+    for d in (os.path.join(common.COQ, "theories"), common.GEN):
+        for f in sorted(os.listdir(d)):
+            if f.endswith(".v"):
+                h.update(f.encode()); h.update(open(os.path.join(d, f), "rb").read())
     return h.hexdigest()
 
 
